@@ -310,7 +310,9 @@ pub fn universe(c: &AppCase) -> AffUniverse {
 }
 
 pub fn sec_num(s: &str) -> usize {
-    if s == "ZZZ" { 999 } else { s.trim_start_matches('S').parse().unwrap_or(998) }
+    // ("s0" is security 0 typed in lower case — a ticker is compared as it is written, and a case
+    // uses one spelling throughout)
+    if s == "ZZZ" { 999 } else { s.trim_start_matches(['S', 's']).parse().unwrap_or(998) }
 }
 
 pub fn emit_rows(uni: &AffUniverse, rows: &[Tx], out: &mut String) {
